@@ -95,6 +95,28 @@ SEEDS = {
  "C08-m4": ("C08", "inside a complex term, a left variable with an id above every bound variable that is already aliased low-to-high ('fresh variable' fast path bypasses the alias walk)", ["C08", "C06"]),
  "C11-m3": ("C11", "not(G) on a call that, after dereferencing, holds two distinct unbound variables with the same *name* from different scopes (goal re-renamed by name inside not)", ["C11", "C03"]),
  "C11-m4": ("C11", "two variables of one clause whose names differ only in a trailing _<digits> suffix, read by the parser (printed form $X_12 accepted as id 12, name $X)", ["C11", "C19", "C20"]),
+ "C13-m3": ("C13", "an arithmetic function against a numerically equal number of the other numeric type (add(1, 2) = 3.0 must fail like 3 = 3.0)", ["C13", "C12"]),
+ "C13-m4": ("C13", "a variable first aliased to a newer unbound variable, then unified with a function on either side, the result observed through the other variable (fast path writes into the wrong slot)", ["C13"]),
+ "C14-m3": ("C14", "float negative zero against positive float zero or integer zero (f64::total_cmp)", ["C14"]),
+ "C14-m4": ("C14", "an ordering comparison between two atoms one of which is a proper prefix of the other (zip without length comparison)", ["C14"]),
+ "C15-m3": ("C15", "append over a list with a chain of two bound tail variables (only the first is followed)", ["C15", "C16"]),
+ "C15-m4": ("C15", "a result of append/include/exclude with >= 2 elements: inner nodes record the total length (k, k, .., 0); nothing in the engine reads it, answers unchanged", ["C15"]),
+ "C16-m3": ("C16", "two inputs of one append call that reach the same bound tail variable (cycle guard shared across the arguments)", ["C16"]),
+ "C16-m4": ("C16", "every input of append is an empty list (fails when nothing was collected)", ["C16"]),
+ "C17-m3": ("C17", "a prefix* pattern that reaches functor() through a bound variable", ["C17"]),
+ "C17-m4": ("C17", "a join argument that is a variable bound to a list", ["C17"]),
+ "C18-m3": ("C18", "a query string that starts with a built-in function name, e.g. parse_query(\"add(1, 2)\") (dispatch moved into parse_complex; parse_query assumes a complex term)", ["C18"]),
+ "C18-m4": ("C18", "a list whose contents begin with backslashes immediately followed by a delimiter, e.g. [\\,, a] (backwards scan without lower bound)", ["C18"]),
+ "C19-m3": ("C19", "an atom spelled like a Rust float literal or special word: 1e5, inf, NaN (number classification by the standard library)", ["C19", "C20"]),
+ "C19-m4": ("C19", "a rule (not a fact) with non-ASCII letters in the head (neck located by byte offset, used as char index)", ["C19", "C21"]),
+ "C20-m3": ("C20", "a bare number-lookalike atom (1e5, inf) directly as an infix operand (numeric fast path for operands)", ["C20"]),
+ "C20-m4": ("C20", "a multi-byte character inside a complex term (char indices used as byte offsets in parse_complex)", ["C20", "C18"]),
+ "C21-m3": ("C21", "a rule whose last token is a float at bracket depth 0 (the final period is swallowed, the rule merges with the next or is dropped)", ["C21"]),
+ "C21-m4": ("C21", "a legal line break directly after an infix operator: =, ==, <=, >=, - (lines joined with a newline; the infix scanner wants a blank)", ["C21"]),
+ "C22-m4": ("C22", "the same query text parsed a second time in one process, answered through a rule whose head variables do not line up with the query's (parse_query cache restarts ids at 0)", ["C22"]),
+ "C23-m4": ("C23", "solve_all on a search that exceeds the limit where an ancestor still has an untried cheap clause: an out-of-order answer is published before the timeout message", ["C23"]),
+ "C24-m3": ("C24", "an older variable bound to a newer, still unbound variable, nothing with a higher id bound yet, then a built-in dereferences it (unchecked raw read past the end of the substitution set)", ["C24"]),
+ "C24-m4": ("C24", "a cut directly inside a non-last alternative of a disjunction that then fails (a &mut kept live across the recursive call in the Or code; no native symptom)", ["C24"]),
 }
 
 def sh(cmd, cwd=None, env=None, timeout=None):
